@@ -169,8 +169,22 @@ fn size_base_used_sweeps(rep: &mut Report, thorough: bool) {
         }
     }
     // ---- used index in guest memory picked up by SET_VRING_ADDR ----
-    let used_vals: Vec<u16> = if thorough { (0..=65535).collect() } else { (0..=260).chain([32767, 32768, 65534, 65535]).collect() };
-    for u in used_vals {
+    // "in arbitrary message orders": on a ring that is not started yet, and again after the ring
+    // was started (kick descriptor installed) - the frontend re-sends the addresses of a running ring
+    let kick0 = crate::rawpeer::eventfd(0, true);
+    let used_all: Vec<u16> = if thorough { (0..=65535).collect() } else { (0..=260).chain([32767, 32768, 65534, 65535]).collect() };
+    let used_started: Vec<u16> = if thorough { (0..=65535).step_by(7).chain([65535]).collect() } else { (3..=40).chain([299, 32768, 65535, 0]).collect() };
+    let mut used_vals: Vec<(u16, bool)> = used_all.into_iter().map(|u| (u, false)).collect();
+    used_vals.extend(used_started.into_iter().map(|u| (u, true)));
+    let mut started0 = false;
+    for (u, on_started) in used_vals {
+        if on_started && !started0 {
+            started0 = true;
+            if h.ack(SET_VRING_KICK, &p_u64(0), &[std::os::unix::io::AsRawFd::as_raw_fd(&kick0)]) != Ok(true) {
+                rep.violation("C14:set_vring_kick-failed", "SET_VRING_KICK for ring 0 failed", json!({"check":"C14","part":"used_idx"}));
+                return;
+            }
+        }
         // used ring at gpa 0x3000: flags u16, idx u16
         // SAFETY: pwrite on our memfd.
         unsafe { libc::pwrite(mem.as_raw_fd(), &u as *const u16 as *const libc::c_void, 2, 0x3002) };
@@ -183,7 +197,7 @@ fn size_base_used_sweeps(rep: &mut Report, thorough: bool) {
         let ok = r == Ok(true) && s.next_used == u && s.desc == 0x1000 && s.used == 0x3000 && s.avail == 0x2000;
         if !ok {
             rep.outcome("ring-addr-differs");
-            rep.violation("C14:set_vring_addr:queue-state", &format!("used index {u} in guest memory; after SET_VRING_ADDR with flags {fl:#x} ({r:?}) the ring has next_used {} desc {:#x} avail {:#x} used {:#x}", s.next_used, s.desc, s.avail, s.used), json!({"check":"C14","part":"used_idx","used":u,"flags":fl}));
+            rep.violation(if on_started { "C14:set_vring_addr:queue-state:started-ring" } else { "C14:set_vring_addr:queue-state" }, &format!("used index {u} in guest memory; after SET_VRING_ADDR with flags {fl:#x} ({r:?}) on a ring that is {} the ring has next_used {} desc {:#x} avail {:#x} used {:#x}", if on_started { "started" } else { "not started" }, s.next_used, s.desc, s.avail, s.used), json!({"check":"C14","part":"used_idx","used":u,"flags":fl,"started":on_started}));
             if r != Ok(true) && renegotiate(&mut h, PROTO, VIRTIO_ALL).is_err() {
                 return;
             }
@@ -729,7 +743,7 @@ pub fn run(rep: &mut Report) {
     rep.sample(json!({"part":"set_vring_num","num":3,"expect":"rejected, or the ring really has size 3"}));
     rep.sample(json!({"part":"histories","seq":["TableA","Addr","Call1","TableB","Call2","UseRing"],"expect":"used element in table B's file, only call descriptor 2 signalled"}));
     rep.sample(json!({"part":"set_features","offered":"0x160000003","requested":"0x20000000","expect":"accepted, backend gets exactly 0x20000000, event_idx=true on every queue"}));
-    rep.rule = "ring index 0..=255 for each of the 8 per-ring messages; SET_VRING_NUM over 0..=300 and boundaries (0..=65535 and beyond at thorough) with the resulting queue size read back; SET_VRING_BASE then GET_VRING_BASE and used-index contents over 0..=260 and boundaries (0..=65535 at thorough), SET_VRING_ADDR alternately without and with the log flag; 343 address triples at region edges, 512 triples over two regions adjacent in the frontend's address space but not in guest address space; all histories of length <= 3 (5 at thorough) over {SET_FEATURES plain / with EVENT_IDX / EVENT_IDX only, RESET_OWNER, RESET_DEVICE} ending in a SET_FEATURES (backend and queues must hold the latest set); SET_FEATURES for 7 offered masks x (single bits, offered minus/plus one bit, patterns) on 1-3 queues incl. EVENT_IDX; the backend-request channel after each of the 8 subsets of {REPLY_ACK, SHARED_OBJECT, SHMEM}; all histories of length <= 4 (5 at thorough) over {table A, table B, SET_VRING_ADDR, call fd1/fd2/none, GET_VRING_BASE + signal + restart, a table the backend rejects, add_used+signal} ending in a ring operation. Queue state is read by a probe listener inside the worker. Non-trivial = evaluations whose queue state / callback / memory / counter was compared".into();
+    rep.rule = "ring index 0..=255 for each of the 8 per-ring messages; SET_VRING_NUM over 0..=300 and boundaries (0..=65535 and beyond at thorough) with the resulting queue size read back; SET_VRING_BASE then GET_VRING_BASE and used-index contents over 0..=260 and boundaries (0..=65535 at thorough), SET_VRING_ADDR alternately without and with the log flag, on a ring that is not started and again after it was started; 343 address triples at region edges, 512 triples over two regions adjacent in the frontend's address space but not in guest address space; all histories of length <= 3 (5 at thorough) over {SET_FEATURES plain / with EVENT_IDX / EVENT_IDX only, RESET_OWNER, RESET_DEVICE} ending in a SET_FEATURES (backend and queues must hold the latest set); SET_FEATURES for 7 offered masks x (single bits, offered minus/plus one bit, patterns) on 1-3 queues incl. EVENT_IDX; the backend-request channel after each of the 8 subsets of {REPLY_ACK, SHARED_OBJECT, SHMEM}; all histories of length <= 4 (5 at thorough) over {table A, table B, SET_VRING_ADDR, call fd1/fd2/none, GET_VRING_BASE + signal + restart, a table the backend rejects, add_used+signal} ending in a ring operation. Queue state is read by a probe listener inside the worker. Non-trivial = evaluations whose queue state / callback / memory / counter was compared".into();
 }
 
 pub fn replay(case: &Value, rep: &mut Report) {
